@@ -38,8 +38,13 @@ def variants(tier):
         out.append({"hashseed": "random", "sym_offset": 997, "history": "schedules", "salt": 3, "order": [2, 1, 0]})
         out.append({"hashseed": "7", "sym_offset": 1, "history": "same-first", "salt": 2, "order": [1, 0, 2]})
     else:
-        for h, o, hi, s in itertools.product(HASHSEEDS, OFFSETS, HISTORIES, SALTS):
-            out.append({"hashseed": h, "sym_offset": o, "history": hi, "salt": s, "order": ORDERS[(len(out)) % len(ORDERS)]})
+        # every axis exhaustively around the default (as in the quick tier) ...
+        out = variants("quick")
+        # ... plus the full product of a sub-grid (4 hash seeds x 2 counter offsets x 4 histories x 2 salts)
+        for h, o, hi, s in itertools.product(["0", "1", "42", "random"], [0, 997], HISTORIES, [0, 3]):
+            v = {"hashseed": h, "sym_offset": o, "history": hi, "salt": s, "order": ORDERS[(len(out)) % len(ORDERS)]}
+            if v not in out:
+                out.append(v)
     return out
 
 
